@@ -124,9 +124,9 @@ def cases_for(tier):
             for m in (0, 1):
                 for script in ('quadobj', 'noquadobj'):
                     if tier == 'thorough' or n < 3:
-                        combos = [(r, f) for r in ('env', 'arg') for f in ('text', 'binary')] + [('file', 'text'), ('filenl', 'binary')]
+                        combos = [(r, f) for r in ('env', 'arg') for f in ('text', 'binary')] + [('file', 'text'), ('filenl', 'binary'), ('mpopts', 'text')]
                     else:
-                        combos = [('env', 'text'), ('arg', 'binary'), ('file', 'text')]
+                        combos = [('env', 'text'), ('arg', 'binary'), ('file', 'text'), ('mpopts', 'binary')]
                     for route, fmt in combos:
                         out.append((tuple(spec), k, m, route, fmt, script))
     return out
@@ -243,6 +243,10 @@ def run_case(binary, wd, case):
     if route == 'env':
         toks = ([] if k is None else ['objno=%d' % k]) + (['multiobj=1'] if m else [])
         env_opts = {'vdriver_options': ' '.join(toks)}
+    elif route == 'mpopts':
+        # the solver-independent variable mp_options, value syntax without '=': "objno 2"
+        toks = ([] if k is None else ['objno %d' % k]) + ['multiobj %d' % m]
+        env_opts = {'mp_options': ' '.join(toks)}
     elif route in ('file', 'filenl'):
         # an option file (tech:optionfile): 'file' ends with the objno assignment and no final newline, 'filenl' has the
         # assignments in the other order and a final newline
@@ -464,7 +468,7 @@ def _main(chk, tier, binary):
     vcheck.finalize_classes(chk)
     chk.set('rule', 'exhaustive: NL files with n in 0..3 objectives, objective i = {min,max} x {linear, constant only, '
             '|x0|+i+linear, (i+1)x0^2+linear} (%s) x objno {unset, 0..n+1} x multiobj {0,1} x {objno=/multiobj= in '
-            'vdriver_options, obj:no=/obj:multi= on the command line, objno=/multiobj= in an option file ending with / without a newline} x {text, binary NL} x {quadratic objective accepted, '
+            'vdriver_options, obj:no=/obj:multi= on the command line, objno=/multiobj= in an option file ending with / without a newline, "objno K" in mp_options} x {text, binary NL} x {quadratic objective accepted, '
             'not accepted}%s; one driver process per case. Oracle: reference selection function + value comparison of each '
             'delivered objective (following aux variables through AbsConstraint / quadratic constraints / fixed variables) '
             'with the NL reference evaluator at %d points separating span{1,x0,x1,|x0|,x0^2}; `objno N code` line. '
@@ -472,7 +476,7 @@ def _main(chk, tier, binary):
             % ('all combinations' if tier == 'thorough' else 'all combinations for n<=2; for n=3 all 64 shape triples with alternating senses',
                '' if tier == 'thorough' else ' (for n=3 route and format are paired: env+text, arg+binary)', len(POINTS)))
     chk.set('bounds', {'n': [0, 3], 'shapes': SHAPES, 'senses': SENSES, 'objno': 'unset, 0..n+1', 'multiobj': [0, 1],
-                       'routes': ['env', 'arg', 'file', 'filenl'], 'formats': ['text', 'binary'], 'scripts': sorted(SCRIPTS)})
+                       'routes': ['env', 'arg', 'file', 'filenl', 'mpopts'], 'formats': ['text', 'binary'], 'scripts': sorted(SCRIPTS)})
     chk.assumptions += [
         '.sol line `objno N code`: N is zero-based (sol.h writes objno_used()-1; ASL convention obj_no), so "objective k used" '
         'is N = k-1 and "no objective used" is N = -1; demanded: N = k-1 in single-objective mode, N = -1 when nothing was '
